@@ -33,6 +33,7 @@ type kase struct {
 	EnumLen  int      `json:"enum_len,omitempty"`
 	ModelPer int      `json:"model_per"` // how many observations go to the model after each call (all after the last)
 	Tag      string   `json:"tag,omitempty"`
+	NoModel  bool     `json:"no_model,omitempty"` // oracle only: the Lean model's cost grows with the cube of a word's length (legs3.go: words > 128 runes)
 }
 
 func (c *kase) texts() []string {
@@ -197,7 +198,7 @@ func checkText(t, fresh *trie.HashTrie, dict map[string]bool, words []string, li
 		for w := range dict {
 			ws := []rune(w)
 			for i := 0; i+len(ws) <= len(tr); i++ {
-				if string(tr[i:i+len(ws)]) == w {
+				if tr[i] == ws[0] && string(tr[i:i+len(ws)]) == w {
 					occurs = true
 					for j := range ws {
 						covered[i+j] = true
@@ -344,7 +345,7 @@ func runCase(r *hxlib.Run, c *kase) ([]failure, stats) {
 }
 
 func shrink(c *kase, f failure) *kase {
-	base := &kase{Ops: append([]op{}, c.Ops[:f.opIdx+1]...), ModelPer: 1000, Tag: c.Tag}
+	base := &kase{Ops: append([]op{}, c.Ops[:f.opIdx+1]...), ModelPer: 1000, Tag: c.Tag, NoModel: c.NoModel}
 	if f.hasText {
 		base.Texts = []string{f.text}
 	}
@@ -367,7 +368,7 @@ func shrink(c *kase, f failure) *kase {
 		}
 		return still(k)
 	})
-	out := &kase{Texts: base.Texts, ModelPer: 1000, Tag: c.Tag}
+	out := &kase{Texts: base.Texts, ModelPer: 1000, Tag: c.Tag, NoModel: c.NoModel}
 	for _, i := range keep {
 		out.Ops = append(out.Ops, base.Ops[i])
 	}
@@ -383,7 +384,11 @@ func caseKey(c *kase) string {
 
 func one(r *hxlib.Run, c *kase) {
 	r.Case()
-	fails, st := runCase(r, c)
+	rec := r
+	if c.NoModel {
+		rec = nil
+	}
+	fails, st := runCase(rec, c)
 	r.CountN("observations", st.observations)
 	r.CountN("remove-of-present-word", st.removesPresent)
 	r.CountN("remove-of-absent-word", st.removesAbsent)
@@ -604,6 +609,8 @@ func main() {
 			one(r, c)
 		}
 	}
+	// Unicode look-alikes and classes, single matches longer than 64 / 256 / 4096 runes (legs3.go)
+	unicodeLegs(r)
 	if r.Search {
 		if r.Failed() {
 			r.Note("search legs not run: the thorough generators already produced a failing input")
